@@ -84,6 +84,7 @@ class Engine:
     self.fresh_n = 0
     self.sqrt_memo = {}
     self.sqrt_rad = {}
+    self.sqrt_def_ids = set()
     self.vars = {}
     self.seed_np = seed_np
     self.stats = dict(paths=0, aborted=0, solver_calls=0, solver_s=0.0,
@@ -205,6 +206,7 @@ class Engine:
       self.fresh_n = 0
       self.sqrt_memo = {}
       self.sqrt_rad = {}
+      self.sqrt_def_ids = set()
       self.solver.push()
       _Cur.eng = self
       if self.seed_np:
@@ -467,6 +469,7 @@ class SNum:
     r = e.fresh('sqrt')
     c = z3.And(r >= 0, r * r == _real(self.e))
     e._add(c)
+    e.sqrt_def_ids.add(c.get_id())
     e.sqrt_memo[key] = r
     e.sqrt_rad[r.get_id()] = (r, _real(self.e))
     return SNum(r)
